@@ -13,7 +13,8 @@ PROPERTY = "C17"
 LEVEL = "exploration"
 SHARDS = {"quick": 4, "thorough": 16}
 REQUIRED = ["list-model", "views-agree", "immutable-views", "query-roundtrip", "aliasing"]
-RULE = ("Exhaustive: every sequence of length <=3 (thorough <=4) over 39 operations (assign, delete, append, setlist/poplist, pop "
+SHARD_TIMEOUT = {"quick": 900, "thorough": 5400}  # the length-4 exhaustive part grows with the fourth power of the operation count
+RULE = ("Exhaustive: every sequence of length <=3 (thorough <=4) over 43 operations (assign, delete, append, setlist/poplist, pop "
         "with/without default, popitem, setdefault, update from mapping/pairs/kwargs/multi-mapping, clear) on keys {a,b} x values {1,2}, from 5 "
         "initial pair lists; random sequences of length <=30 over 4 keys x 4 values with the icontract invariant armed on the real class; "
         "constructor forms; query strings with blanks, repeats, '+', %xx, non-ASCII. Non-trivial = a sequence containing at least one mutating "
